@@ -145,12 +145,18 @@ def hasEither (g : GlyphIn) (p : String × String) : Bool :=
 /-- the font has a left-to-right code point (then lookups are split by direction) -/
 def splitOn (i : Input) : Bool := i.dir.anyLtrCp && i.dir.ltr.isSome
 
+/-- the glyph belongs to a left-to-right script: it is encoded with / reachable through GSUB from a
+left-to-right code point (the given set), or a designspace rule substitutes it for such a glyph -/
+def isLtrGlyph (i : Input) (glyph : String) : Bool :=
+  (i.dir.ltr.getD []).contains glyph ||
+  i.dir.extras.any (fun e => e.2 == glyph && (i.dir.ltr.getD []).contains e.1)
+
 /-- RightToLeft flag rule: explicit suffix decides; otherwise cleared iff splitting is on and the
-glyph is in the left-to-right set -/
+glyph is a left-to-right glyph -/
 def specRtl (i : Input) (entryName glyph : String) : Bool :=
   if isRTLName entryName then true
   else if isLTRName entryName then false
-  else !(splitOn i && (ltrSet i.dir).contains glyph)
+  else !(splitOn i && isLtrGlyph i glyph)
 
 /-- every glyph with at least one anchor of a pair has its exact record in a lookup with the right flag -/
 def holdsCursCover (i : Input) (obs : List Lookup) : Bool :=
